@@ -73,6 +73,27 @@ class Rewriter:
         self.rng = rng
         self.p = p
         self.applied = []
+        self.scratch = None        # a register the source never mentions: free to hold a subscript
+        self.arrays = set()
+        self.used_scratch = False
+
+    def const_index(self, e):
+        """-> (k, e') for the first arr[k] (constant k, real array) in the pure expression e, with that
+        subscript replaced by the scratch register; None when there is none"""
+        if not isinstance(e, tuple):
+            return None
+        if e[0] == 'idx' and e[1] in self.arrays and e[2][0] == 'num':
+            return (e[2][1], ('idx', e[1], ('var', self.scratch)))
+        if e[0] == 'bin':
+            for i in (2, 3):
+                r = self.const_index(e[i])
+                if r:
+                    return (r[0], e[:i] + (r[1],) + e[i + 1:])
+        if e[0] == 'un':
+            r = self.const_index(e[2])
+            if r:
+                return (r[0], ('un', e[1], r[1]))
+        return None
 
     def expr(self, e):
         rng = self.rng
@@ -126,6 +147,13 @@ class Rewriter:
             c = self.expr(s[1])
             a = self.stmt(s[2])
             b = self.stmt(s[3]) if s[3] is not None else None
+            if self.scratch and pure(c) and rng.random() < self.p:
+                r = self.const_index(c)
+                if r:
+                    # arr[k] and "R = k; arr[R]" are two spellings of the same access
+                    self.applied.append('constant subscript -> register subscript')
+                    self.used_scratch = True
+                    return ('block', [('expr', ('asg', '=', ('var', self.scratch), ('num', r[0]))), ('if', r[1], a, b)])
             if b is not None and rng.random() < self.p:
                 self.applied.append('if-not swap')
                 return ('if', ('un', '!', c), b, a)
@@ -149,10 +177,43 @@ class Rewriter:
 
     def program(self, p):
         q = copy.deepcopy(p)
+        src = p.source()
+        self.arrays = set(n for (t, n, init, alen, qual) in p.globals if alen is not None)
+        free = [r_ for r_ in ('X', 'Y') if not re.search(r'\b%s\b' % r_, src)]
+        # Y is what the compiler itself uses for pointers; prefer X
+        self.scratch = free[0] if free and self.arrays and '*' not in src.replace('*const', '') else None
         q.main = [self.stmt(x) for x in q.main]
         for f in q.funcs:
             f['body'] = [self.stmt(x) for x in f['body']]
+        # the scratch register's final value is not the source's business: not compared
+        q.ignore_reg = self.scratch if self.used_scratch else None
         return q
+
+
+def index_program(rng):
+    """arrays accessed with constant subscripts only, X never mentioned: updates of one element followed by
+    tests of the same or of another element"""
+    from lib.gen_c import Prog
+    p = Prog()
+    p.globals = [('unsigned char', 'arr', None, 8, ''), ('unsigned char', 'a', None, None, ''), ('unsigned char', 'b', None, None, ''),
+                 ('const unsigned char', 'tab', [rng.randrange(256) for _ in range(8)], 8, '')]
+    p.funcs = []
+    V = lambda n: ('var', n)
+    N = lambda n: ('num', n)
+    el = lambda: ('idx', rng.choice(['arr', 'arr', 'tab']), N(rng.randrange(8)))
+    st = []
+    for _ in range(rng.randrange(1, 4)):
+        x = ('idx', 'arr', N(rng.randrange(8)))
+        st.append(rng.choice([('expr', ('inc', rng.choice(['++x', 'x++', '--x', 'x--']), x)), ('expr', ('asg', '=', x, V(rng.choice(['a', 'b'])))),
+                              ('expr', ('asg', '=', x, N(rng.choice([0, 1, 200])))), ('expr', ('asg', rng.choice(['+=', '-=', '&=']), x, N(1))),
+                              ('expr', ('asg', '=', V(rng.choice(['a', 'b'])), el()))]))
+        y = el()
+        tst = rng.choice([y, ('bin', '!=', y, N(0)), ('bin', '==', y, N(0)), ('un', '!', y), ('bin', rng.choice(['<', '>=', '==']), y, V('a')),
+                          ('bin', '==', y, N(rng.choice([1, 200])))])
+        st.append(('if', tst, ('block', [('expr', ('asg', '=', V('b'), N(rng.randrange(1, 9))))]),
+                   ('block', [('expr', ('asg', '=', V('a'), N(rng.randrange(1, 9))))]) if rng.random() < 0.5 else None))
+    p.main = st
+    return p
 
 
 def compare_pairs(pairs, O, nstates, rng):
@@ -195,7 +256,12 @@ def compare_pairs(pairs, O, nstates, rng):
             a = runs.get(pid + '@a', {}).get(k)
             b = runs.get(pid + '@b', {}).get(k)
             n += 1
-            if observable(a) != observable(b):
+            ign = getattr(pairs[pid][1], 'ignore_reg', None)
+            oa, ob = observable(a), observable(b)
+            if ign and oa[0] == 'halt' and ob[0] == 'halt':
+                j = 1 if ign == 'X' else 2
+                oa, ob = oa[:j] + oa[j + 1:], ob[:j] + ob[j + 1:]
+            if oa != ob:
                 verdict = ('DIFF', {'initial': describe_state(lay, states[k], w), 'original': describe_run(lay, a, w),
                                     'rewritten': describe_run(lay, b, w)})
                 break
@@ -228,6 +294,17 @@ def run(ctx):
                 continue
             pairs['p%d' % i] = (p, q)
             applied['p%d' % i] = rw.applied
+            for a in rw.applied:
+                kinds[a] = kinds.get(a, 0) + 1
+        # programs that never mention X: every constant subscript of a condition goes through X in the copy
+        for i in range(80 if quick else 2000):
+            p = index_program(rng)
+            rw = Rewriter(rng, 1.0)
+            q = rw.program(p)
+            if 'constant subscript -> register subscript' not in rw.applied:
+                continue
+            pairs['ix%d' % i] = (p, q)
+            applied['ix%d' % i] = rw.applied
             for a in rw.applied:
                 kinds[a] = kinds.get(a, 0) + 1
         res = compare_pairs(pairs, O, 8 if quick else 24, rng)
@@ -286,4 +363,4 @@ def run(ctx):
                        'compound assignment unfolded/folded, ++/-- as += / -= 1, if/else with negated condition, for as while; '
                        'non-trivial = pairs with at least one rewrite whose executions agree on every decided state')
     ctx.cov['trusted_base'] = ['Coq 8.16.1 kernel', 'extraction of M6502/Sem.v and Src/CSem.v', 'harness ccv', 'the rewriter (tools/props/c15.py) applies only rewrites on side-effect-free operands']
-    ctx.assumptions = ['switch <-> if-chain, register-index <-> constant-index and call <-> body rewrites are not generated yet']
+    ctx.assumptions = ['switch <-> if-chain and call <-> body rewrites are not generated yet']
